@@ -188,8 +188,10 @@ class EOFRotator(EOF):
         scores = scores * modes_sign
 
         # Store the results
-        self.model_data.add(model.data["norms"], "singular_values")
-        self.model_data.add(model.data["components"], "components")
+        # Shallow copies: DataContainer.add renames the array it is given, which
+        # must not rename the entries of the model being rotated
+        self.model_data.add(model.data["norms"].copy(deep=False), "singular_values")
+        self.model_data.add(model.data["components"].copy(deep=False), "components")
 
         # Assigning input data to the Rotator object allows us to inherit some functionalities from the original model
         self.data.add(model.data["input_data"], "input_data", allow_compute=False)
